@@ -64,9 +64,14 @@ package vars
 //@   ensures base(*p) == old(base(*p))
 //@   ensures sync.poolWF()
 
-//@ func NewBuffer assumed "sync.Pool: returns a pooled or new *bytes.Buffer, exclusively owned"
-//@   ensures result != nil && fresh(result)
-//@ func FreeBuffer assumed "sync.Pool.Put: the buffer is handed back; no effect visible to the caller"
+//@ func NewBuffer assumed "sync.Pool: returns a pooled or new *bytes.Buffer, exclusively owned (its byte array is no longer pool-owned)"
+//@   modifies $pooled
+//@   ensures result != nil && fresh(result) && !$pooled[$bufarr[result]] && ($bufarr[result] == 0 || fresh($bufarr[result]))
+//@   ensures forall r int :: $pooled[r] ==> old($pooled[r])
+//@ func FreeBuffer assumed "the buffer and its byte array are handed to the pool (when small enough; treated as always handed over)"
+//@   requires p != nil
+//@   modifies $pooled
+//@   ensures forall r int :: $pooled[r] == (old($pooled[r]) || (r == $bufarr[p] && r != 0))
 
 // C10: the encoder's argument pointer bitmap is the pointer map of the Encoder signature.
 //@ datainv argptrs_encoder props C10: len(initval(ArgPtrs)) == argwords(Encoder) && (forall i int :: (0 <= i && i < argwords(Encoder)) ==> initval(ArgPtrs)[i] == ptrword(Encoder, i))
